@@ -574,7 +574,7 @@ def scratch():
 
 
 C_FLAGS = ['-std=gnu11']
-CXX_FLAGS = ['-std=gnu++20', '-fno-exceptions']
+CXX_FLAGS = ['-std=gnu++20', '-fno-exceptions', '-fstandalone-debug']
 IR_FLAGS = ['-O0', '-Xclang', '-disable-O0-optnone', '-fno-discard-value-names',
             '-g', '-S', '-emit-llvm', '-UNDEBUG', '-w',
             '-fno-inline', '-fno-builtin']
